@@ -1913,22 +1913,18 @@ impl StorageEngine {
                 Value::String(bytes) => {
                     let len = bytes.len() as isize;
                     
-                    let start = if start < 0 {
-                        std::cmp::max(0, len + start) as usize
-                    } else {
-                        start as usize
-                    };
+                    // Negative indexes count from the end; both ends are clamped to the string
+                    let mut first = if start < 0 { len.saturating_add(start) } else { start };
+                    let mut last = if end < 0 { len.saturating_add(end) } else { end };
+                    let reversed_negative = start < 0 && end < 0 && start > end;
+                    if first < 0 { first = 0; }
+                    if last < 0 { last = 0; }
+                    if last >= len { last = len - 1; }
                     
-                    let end = if end < 0 {
-                        std::cmp::max(-1, len + end) as usize
-                    } else {
-                        std::cmp::min(end as usize, len as usize - 1)
-                    };
-                    
-                    if start > end || start >= bytes.len() {
+                    if len == 0 || reversed_negative || first > last {
                         Vec::new()
                     } else {
-                        bytes[start..=end].to_vec()
+                        bytes[first as usize..=last as usize].to_vec()
                     }
                 }
                 _ => return Err(StorageError::WrongType.into()),
